@@ -889,4 +889,128 @@ example :
     run .default false .quorum [Target.upTo 1]
       (script [.fail (.dbError (.readTimeout 2 2 false)), .fail .brokenConnection])
     = ⟨[⟨0, .quorum⟩], [.retrySame none], .exhausted (some .pool), 1⟩ := by decide
+
+/-! ### several fibers (speculative execution): the bound for "any request" -/
+
+/-- What a fiber has sent plus what it can still send without a new target. -/
+def fiberPot (pol : Policy) (f : Fiber Sess) : Nat :=
+  f.log.length +
+    (if f.done then 0 else budget pol (f.loc.sess.getD Sess.init) + (if f.cur.isSome then 1 else 0))
+
+def pot (pol : Policy) (fs : List (Fiber Sess)) : Nat := (fs.map (fiberPot pol)).sum
+
+private theorem fiber_step_pot (pol : Policy) (idem : Bool) (outcomes : Nat → Outcome) (f : Fiber Sess)
+    (sp : SharedPlan) :
+    (f.step (builtin pol) idem outcomes sp).2.rest.length + fiberPot pol (f.step (builtin pol) idem outcomes sp).1
+      ≤ sp.rest.length + fiberPot pol f := by
+  unfold Fiber.step
+  split
+  · exact Nat.le_refl _
+  · rename_i hdone
+    split
+    · rename_i hcur
+      split
+      · rename_i hrest
+        simp [fiberPot, hdone, hcur, hrest]
+      · rename_i av rest hrest
+        simp only [fiberPot, hdone, hcur, hrest, List.length_cons]
+        simp <;> omega
+    · rename_i t av hcur
+      split
+      · simp only [fiberPot, hdone, hcur]; simp <;> omega
+      · simp only []
+        split
+        · simp only [fiberPot, hdone, hcur, List.length_cons]; simp <;> omega
+        · rename_i e hout
+          have h1 := budget_nonincreasing pol (f.loc.sess.getD Sess.init) ⟨e, idem, f.loc.cl⟩
+          split
+          · rename_i cl hd
+            have h2 := budget_consumed_by_retrySame pol (f.loc.sess.getD Sess.init) ⟨e, idem, f.loc.cl⟩
+              (by rw [hd]; rfl)
+            simp only [fiberPot, hdone, hcur, List.length_cons, Option.getD_some] at h1 h2 ⊢
+            simp <;> omega
+          · simp only [fiberPot, hdone, hcur, List.length_cons, Option.getD_some] at h1 ⊢
+            simp <;> omega
+          · simp only [fiberPot, hdone, hcur, List.length_cons]; simp <;> omega
+          · simp only [fiberPot, hdone, hcur, List.length_cons]; simp <;> omega
+
+private theorem stepAt_pot (pol : Policy) (idem : Bool) (outcomes : Nat → Nat → Outcome) (id i : Nat)
+    (fs : List (Fiber Sess)) (sp : SharedPlan) :
+    (stepAt (builtin pol) idem outcomes id i fs sp).2.rest.length
+        + pot pol (stepAt (builtin pol) idem outcomes id i fs sp).1
+      ≤ sp.rest.length + pot pol fs := by
+  induction fs generalizing id i with
+  | nil => simp [stepAt]
+  | cons f fs ih =>
+    cases i with
+    | zero =>
+      have := fiber_step_pot pol idem (outcomes id) f sp
+      simp only [stepAt, pot, List.map_cons, List.sum_cons] at this ⊢
+      omega
+    | succ j =>
+      have := ih (id + 1) j
+      simp only [stepAt, pot, List.map_cons, List.sum_cons] at this ⊢
+      omega
+
+private theorem stepAt_length (pol : Policy) (idem : Bool) (outcomes : Nat → Nat → Outcome) (id i : Nat)
+    (fs : List (Fiber Sess)) (sp : SharedPlan) :
+    (stepAt (builtin pol) idem outcomes id i fs sp).1.length = fs.length := by
+  induction fs generalizing id i with
+  | nil => simp [stepAt]
+  | cons f fs ih => cases i <;> simp [stepAt, ih]
+
+private theorem runSched_pot (pol : Policy) (idem : Bool) (outcomes : Nat → Nat → Outcome) (sched : List Nat)
+    (st : List (Fiber Sess) × SharedPlan) :
+    (runSched (builtin pol) idem outcomes sched st).2.rest.length
+        + pot pol (runSched (builtin pol) idem outcomes sched st).1
+      ≤ st.2.rest.length + pot pol st.1 := by
+  induction sched generalizing st with
+  | nil => simp [runSched]
+  | cons i sched ih =>
+    simp only [runSched]
+    exact Nat.le_trans (ih _) (stepAt_pot pol idem outcomes 0 i st.1 st.2)
+
+private theorem totalAttempts_le_pot (pol : Policy) (fs : List (Fiber Sess)) : totalAttempts fs ≤ pot pol fs := by
+  induction fs with
+  | nil => simp [totalAttempts, pot]
+  | cons f fs ih =>
+    simp only [totalAttempts, pot, List.map_cons, List.sum_cons, fiberPot] at ih ⊢
+    omega
+
+private theorem pot_fresh (pol : Policy) (cl0 : Consistency) (n : Nat) :
+    pot pol (List.replicate n (Fiber.fresh cl0)) = n * sameTargetBound pol := by
+  induction n with
+  | zero => simp [pot]
+  | succ m ih =>
+    simp only [pot, List.replicate_succ, List.map_cons, List.sum_cons] at ih ⊢
+    rw [ih]
+    simp only [fiberPot, Fiber.fresh, Loc.init, Option.getD_none, sameTargetBound]
+    simp [Nat.succ_mul]; omega
+
+/-- **Bound with speculative execution.**  `nFibers` fibers (the first one plus up to `max_retry_count`
+speculative ones), each with its own retry session, share one plan iterator and run under ANY interleaving
+(`sched`: which fiber performs its next loop iteration — any length; fibers that are launched late, cancelled or
+never launched just stop appearing in it), with any outcomes for each fiber's attempts.  At every moment the
+total number of attempts made by all fibers is at most the plan length plus `nFibers` times the policy's fixed
+number of same-node retries. -/
+theorem attempts_bounded_speculative (pol : Policy) (idem : Bool) (cl0 : Consistency) (plan : List Target)
+    (outcomes : Nat → Nat → Outcome) (nFibers : Nat) (sched : List Nat) :
+    totalAttempts (runSched (builtin pol) idem outcomes sched
+        (List.replicate nFibers (Fiber.fresh cl0), ⟨plan, 0⟩)).1
+      ≤ plan.length + nFibers * sameTargetBound pol := by
+  have h1 := totalAttempts_le_pot pol (runSched (builtin pol) idem outcomes sched
+    (List.replicate nFibers (Fiber.fresh cl0), ⟨plan, 0⟩)).1
+  have h2 := runSched_pot pol idem outcomes sched (List.replicate nFibers (Fiber.fresh cl0), ⟨plan, 0⟩)
+  rw [pot_fresh] at h2
+  simp only at h2
+  omega
+
+-- two fibers, default policy, one target each: both use their two same-node retries: 2 + 2·2 = 6 attempts
+example :
+    totalAttempts (runSched (builtin .default) true (fun _ k => script
+        [.fail (.dbError (.readTimeout 2 2 false)), .fail (.dbError (.writeTimeout 0 .batchLog)),
+         .fail .brokenConnection] k)
+        [0, 1, 0, 1, 0, 1, 0, 1, 0, 1]
+        (List.replicate 2 (Fiber.fresh .quorum), ⟨[.always, .always], 0⟩)).1 = 6 := by decide
+
 end ScyllaVerif.Props.C06
